@@ -299,13 +299,15 @@ def checked_call(nc: NativeContracts, key, bound_method_or_func, self_obj, args:
     snap = copy.deepcopy(tuple(names[n] for n in all_names))
     invs = nc.invariants_for(self_obj) if (self_obj is not None and c.use_invariant) else []
     is_init = key.endswith(".__init__")
-    try:
-        pre = list(c.requires) + list(c.assume_pre) + ([] if is_init else invs)
-        for cl in pre:
+    pre = list(c.requires) + list(c.assume_pre) + ([] if is_init else invs)
+    for cl in pre:
+        try:
             if not nc.eval_clause(cl, names, snap, all_names):
                 return ("skip", None)
-    except Skip:
-        return ("skip", None)
+        except Skip:
+            # a clause over ghost state without a native meaning cannot be evaluated: it neither admits nor excludes
+            # the case (generated states are built through the public API, so they are reachable)
+            continue
     # expected exceptional behaviour, decided on the pre-state
     exc = None
     result = None
